@@ -21,7 +21,7 @@ from .drawlib import exact_range
 from . import c06
 
 META = {
-    "explanation": "Structural rules on TreeStorage.update/_update_data_reservoirs/_delete_outdated_reservoirs, the two "
+    "explanation": "Structural rules on TreeStorage.update (its helpers for routing, creation and the sweep inlined), the two "
                    "leaf-id producers (token templates extracted from string concatenation / join terms and compared), "
                    "and TreeImputer.impute with its samplers inlined (argument bindings, provenance of the sampled value, "
                    "position of the fallback).",
@@ -34,7 +34,14 @@ META = {
 MIN_INSTANCES = {"LEN": 2, "RESERVOIR": 4, "SWEEP": 2, "AGREE": 3, "IMPUTE": 3}
 TS = "TreeStorage"
 WRITER = "get_path_through_tree"
-ENUM = "ixai.storage.tree_storage.get_all_tree_paths"
+ENUM_NAME = "get_all_tree_paths"
+
+
+def _enum(prog):
+    q = prog.find_function(ENUM_NAME)
+    if q is None:
+        raise AnalysisError(f"anchor function vanished: {ENUM_NAME}")
+    return q
 
 
 def check(run):
@@ -98,7 +105,8 @@ def _reservoirs(run, prog, ts):
     pos, kw = list(cev.args), dict(cev.kwargs)
     size = kw.get("size", pos[0] if pos else None)
     p = kw.get("constant_probability", pos[1] if len(pos) > 1 else None)
-    ok = size == ("field0", "_leaf_reservoir_length") and p is not None and const_value(p) is not None and const_value(p) >= 1
+    lens = [f for f, t in init.fields.items() if t == ("param", "leaf_reservoir_length")]
+    ok = len(lens) == 1 and size == ("field0", lens[0]) and p is not None and const_value(p) is not None and const_value(p) >= 1
     run.check(ok, "RESERVOIR", "always-insert", f"{s.path}:{cev.line}", fq,
               f"reservoir(size={ir.show_nl(size) if size else None}, p={ir.show_nl(p) if p else None})",
               "leaf reservoirs must have the configured length and always insert (constant probability >= 1) so that the "
@@ -112,12 +120,8 @@ def _reservoirs(run, prog, ts):
     run.check(guard in sctx.guards, "RESERVOIR", "create-on-new-leaf", f"{s.path}:{sev.line}", fq,
               f"creation guard {ir.show_nl(sctx.guards[-1])[:100] if sctx.guards else None}",
               "a reservoir must be created exactly when the leaf id has no reservoir yet", "if leaf_id not in reservoirs: create")
-    sweeps = [(ev, ctx) for ev, ctx in walk(s.events, structural=True) if isinstance(ev, ir.Inlined) and
-              ev.qual.endswith("_delete_outdated_reservoirs")]
-    ok = any(guard in ctx.guards for ev, ctx in sweeps)
-    if ok:
-        dels = [ev for ev, ctx in walk(s.events) if isinstance(ev, ir.Del)]
-        ok = bool(dels) and all(index[id(d)] > index[id(sev)] for d in dels)
+    dels = [(ev, ctx) for ev, ctx in walk(s.events) if isinstance(ev, ir.Del)]
+    ok = bool(dels) and all(guard in ctx.guards and index[id(d)] > index[id(sev)] for d, ctx in dels)
     run.check(ok, "RESERVOIR", "sweep-after-create", f"{s.path}:{sev.line}", fq, "outdated-reservoir sweep",
               "creating a reservoir for a new leaf id (the tree changed shape) must be followed on the same path by the "
               "sweep that drops reservoirs of leaves no longer in the tree", "create; then sweep")
@@ -145,20 +149,30 @@ def _reservoirs(run, prog, ts):
 
 
 def _sweep(run, prog, ts):
-    s = prog.summarise(ts, "_delete_outdated_reservoirs")
-    fq = f"{TS}._delete_outdated_reservoirs"
-    run.analysed_fn(fq)
-    _, fn = prog.find_method(ts, "_delete_outdated_reservoirs")
-    names = [a.arg for a in fn.args.args][1:]
-    feat, rootp = ("param", names[0]), ("param", names[1])
-    enum = [ev for ev, _ in walk(s.events) if isinstance(ev, ir.Call) and ev.callee == ENUM]
+    """The outdated-reservoir sweep, analysed where it happens: inside update (helpers inlined)."""
+    ENUM = _enum(prog)
+    s = prog.summarise(ts, "update")
+    fq = f"{TS}.update"
+    # the enumeration of the current tree's paths: a call of the (recursive) enumerator, or its inlined body
+    enum = [(ev.res, ev.args, ev.kwargs, ctx) for ev, ctx in walk(s.events)
+            if isinstance(ev, ir.Call) and ev.callee == ENUM]
+    enum += [(ev.ret, tuple(ev.params.get(a.arg) for a in ev.fn.args.args[:1]), (), ctx)
+             for ev, ctx in walk(s.events, structural=True)
+             if isinstance(ev, ir.Inlined) and ev.cls is None and ev.qual == ENUM]
     dels = [(ev, ctx) for ev, ctx in walk(s.events) if isinstance(ev, ir.Del)]
-    ok = len(enum) == 1 and enum[0].args[:1] == (rootp,) and len(enum[0].args) == 1 and not enum[0].kwargs and len(dels) == 1
+    writers = [ev for ev, _ in walk(s.events, structural=True) if isinstance(ev, ir.Inlined) and ev.fn.name == WRITER]
+    roots = {ev.params.get(ev.fn.args.args[0].arg) for ev in writers}
+    ok = len(enum) == 1 and len(enum[0][1]) == 1 and not enum[0][2] and len(dels) == 1
     why = "" if ok else f"{len(enum)} enumerations / {len(dels)} deletions"
+    if ok and enum[0][1][0] not in roots:
+        ok, why = False, (f"the paths are enumerated from {ir.show_nl(enum[0][1][0])[:80]}, not from the root the point is "
+                          f"routed through")
     if ok:
+        enum_res = enum[0][0]
         dev, dctx = dels[0]
-        res = ("sub", ("field0", "data_reservoirs"), feat)
-        paths_forms = [enum[0].res] + [("new", "@", k, (enum[0].res,)) for k in ("set", "frozenset", "list", "tuple")]
+        res = dev.cont
+        paths_forms = [enum_res] + [("new", "@", k, (enum_res,)) for k in ("set", "frozenset", "list", "tuple")] + \
+            [("fn", k, (enum_res,)) for k in ("frozenset", "tuple", "sorted")]
 
         def stale_test(c, key):
             return c[0] == "cmp" and c[1] == "not in" and c[2] == key and ir.strip_sites(c[3]) in [ir.strip_sites(p) for p in paths_forms]
@@ -166,34 +180,40 @@ def _sweep(run, prog, ts):
         def keys_of(t):
             """t enumerates the keys of the feature's reservoir dict"""
             return t == res or (t[0] == "res" and t[2] == ".keys" and t[3] == (res,))
+        stores = [ev for ev, _ in walk(s.events) if isinstance(ev, ir.SubStore) and ev.value[0] == "new" and
+                  ev.value[2].endswith("GeometricReservoirStorage")]
         lp = dctx.loops[-1] if dctx.loops else None
-        ok = dev.cont == res and lp is not None and dev.key == ("elem", lp.lid)
+        ok = lp is not None and not lp.comp and dev.key == ("elem", lp.lid) and res[0] == "sub" and \
+            res[1] == ("field0", "data_reservoirs") and bool(stores) and all(st.cont == res for st in stores)
         if not ok:
             why = "the deletion is not a per-id deletion from the feature's reservoirs"
         else:
             it = lp.iter
+            own = [g for g in dctx.guards if ("elem", lp.lid) in ir.subterms(g)]
             # (a) copy of all ids, deletion guarded by the stale test
-            form_a = it[0] == "new" and it[2] in ("list", "tuple", "set") and len(it[3]) == 1 and keys_of(it[3][0]) and \
-                len(dctx.guards) == 1 and stale_test(dctx.guards[0], dev.key)
+            form_a = ((it[0] == "new" and it[2] in ("list", "tuple", "set") and len(it[3]) == 1 and keys_of(it[3][0])) or
+                      (it[0] == "fn" and it[1] in ("tuple", "sorted", "frozenset") and len(it[2]) == 1 and keys_of(it[2][0]))) \
+                and len(own) == 1 and stale_test(own[0], dev.key)
             # (b) materialised list of the stale ids, unconditional deletion
             form_b = it[0] == "comp" and it[1] in ("list", "set") and keys_of(it[3]) and it[5] == ("elem", it[2]) and \
-                len(it[6]) == 1 and stale_test(it[6][0], ("elem", it[2])) and not dctx.guards
+                len(it[6]) == 1 and stale_test(it[6][0], ("elem", it[2])) and not own
             ok = form_a or form_b
             if not ok:
                 live = keys_of(it)
                 why = ("the loop iterates the live dict while deleting from it" if live else
-                       f"ids are deleted under {ir.show_nl(dctx.guards[-1])[:100] if dctx.guards else ir.show_nl(it)[:100]}, "
+                       f"ids are deleted under {ir.show_nl(own[-1])[:100] if own else ir.show_nl(it)[:100]}, "
                        f"not exactly when they are missing from the enumerated tree paths")
-    run.check(ok, "SWEEP", "predicate", f"{s.path}:{s.fn.lineno}", fq, f"sweep: {why or 'ok'}",
+    line = dels[0][0].line if dels else s.fn.lineno
+    run.check(ok, "SWEEP", "predicate", f"{s.path}:{line}", fq, f"sweep: {why or 'ok'}",
               f"the sweep must delete exactly the reservoir ids that are not among the current tree's enumerated paths, "
               f"iterating over a copy of the ids: {why}", "for id in list(ids): if id not in all_paths: del reservoirs[id]")
-    e = prog.summarise_func(ENUM)
-    run.analysed_fn("get_all_tree_paths")
     _, efn = prog.func(ENUM)
+    run.analysed_fn(ENUM_NAME)
     defaults = [d for d in efn.args.defaults]
     import ast
     mutable = [d for d in defaults if isinstance(d, (ast.List, ast.Dict, ast.Set, ast.Call))]
-    run.check(not mutable, "SWEEP", "fresh-accumulator", f"{e.path}:{efn.lineno}", "get_all_tree_paths", "accumulator default",
+    m, _ = prog.func(ENUM)
+    run.check(not mutable, "SWEEP", "fresh-accumulator", f"{m.path}:{efn.lineno}", ENUM_NAME, "accumulator default",
               "the path accumulator must be fresh per top-level call (a mutable default keeps ids of old tree shapes, so no "
               "reservoir is ever outdated)", "paths=None -> new list per call")
 
@@ -238,9 +258,11 @@ def _merge_lits(toks):
     return out
 
 
-def _strip_prefix(toks):
+def _strip_prefix(toks, accumulated=False):
+    """Drop the leading token that stands for the path walked so far (a parameter / loop-carried string; in
+    the enumerator also a work-list component)."""
     toks = [t for t in toks if t != ("lit", "")]
-    if toks and toks[0] == ("prefix",):
+    if toks and (toks[0] == ("prefix",) or (accumulated and toks[0][0] in ("other", "gate"))):
         toks = toks[1:]
     return toks
 
@@ -276,23 +298,77 @@ def _tokens(run, prog, ts):
         _tok(t, node, toks, ())
         kind = "branch" if any(f == ("fn", "hasattr", (node, ("const", "repr_split"))) for f in facts) else "leaf"
         w_templates[kind] = _strip_prefix(_merge_lits(toks))
+    # ---- enumerator: the same two templates, wherever its traversal builds them (recursive call argument,
+    # work-list entry, appended leaf path); the node is the object whose repr_split is written
+    ENUM = _enum(prog)
     e = prog.summarise_func(ENUM)
-    _, efn = prog.func(ENUM)
-    enode = ("param", efn.args.args[0].arg)
+    terms = []
+    for ev, ctx in walk(e.events, structural=True):
+        if isinstance(ev, ir.Loop):
+            terms.append(ev.iter)
+            continue
+        if isinstance(ev, (ir.If, ir.Inlined, ir.Try, ir.With)):
+            continue
+        for part in ev:
+            if isinstance(part, tuple) and part and isinstance(part[0], str):
+                terms.append(part)
+            elif isinstance(part, tuple):
+                terms.extend(x for x in part if isinstance(x, tuple) and x and isinstance(x[0], str))
+                terms.extend(x[1] for x in part if isinstance(x, tuple) and len(x) == 2 and isinstance(x[1], tuple))
+    terms.append(e.ret)
+    nodes = {t[1] for x in terms for t in ir.subterms(x) if t[0] == "attr" and t[2] in ("repr_split", "children")}
+    run.need(len(nodes) == 1, f"enumerator descends into the children of {len(nodes)} different objects")
+    enode = nodes.pop()
+    children = ("attr", enode, "children")
+    enum_lids = set()
+    for x in terms:
+        for t in ir.subterms(x):
+            if t[0] == "comp" and t[3] == ("fn", "enumerate", (children,)):
+                enum_lids.add(t[2])
+    for ev, ctx in walk(e.events, structural=True):
+        if isinstance(ev, ir.Loop) and ev.iter == ("fn", "enumerate", (children,)):
+            enum_lids.add(ev.lid)
+    branch_terms = tuple(("tget", ("elem", lid), 0) for lid in enum_lids)
+
+    def string_terms(t):
+        """maximal string-building subterms (concatenations / joins)"""
+        if not isinstance(t, tuple) or not t:
+            return
+        if (t[0] == "op" and t[1] == "+") or (t[0] == "res" and len(t) > 2 and t[2] == ".join"):
+            yield t
+            return
+        for x in t:
+            if isinstance(x, tuple):
+                yield from string_terms(x)
     e_templates = {}
-    for ev, ctx in walk(e.events):
-        if isinstance(ev, ir.Call) and ev.callee == ENUM:
-            wp = dict(ev.kwargs).get("walked_path", ev.args[1] if len(ev.args) > 1 else None)
-            if wp is not None:
-                toks = []
-                lp = ctx.loops[-1] if ctx.loops else None
-                branch = (("tget", ("elem", lp.lid), 0),) if lp is not None else ()
-                _tok(wp, enode, toks, branch)
-                e_templates["branch"] = _strip_prefix(_merge_lits(toks))
-        if isinstance(ev, ir.Mut) and ev.method == "append" and ev.args:
+    appended = [ev.args[0] for ev, _ in walk(e.events) if isinstance(ev, ir.Mut) and ev.method == "append" and ev.args]
+    cands = []
+    for x in terms:
+        for t in string_terms(x):
+            if t not in cands:
+                cands.append(t)
+    # an intermediate value of a string built in several statements is part of the finished one: keep the finished
+    cands = [t for t in cands if not any(t is not u and t in ir.subterms(u) for u in cands)]
+    for t in cands:
+        if True:
             toks = []
-            _tok(ev.args[0], enode, toks, ())
-            e_templates["leaf"] = _strip_prefix(_merge_lits(toks))
+            _tok(t, enode, toks, branch_terms)
+            toks = _strip_prefix(_merge_lits(toks), accumulated=True)
+            if ("str", "split") in toks or ("str", "branch") in toks:
+                e_templates.setdefault("branch", toks)
+                if e_templates["branch"] != toks:
+                    e_templates["branch"] = [("ambiguous",)]
+            elif t in appended or any(t in ir.subterms(a) for a in appended):
+                if ("str", "node") in toks:
+                    e_templates["leaf"] = toks
+    # a leaf path built by augmented assignment (`walked_path += str(node) + SEP; paths.append(walked_path)`)
+    if "leaf" not in e_templates:
+        for a in appended:
+            toks = []
+            _tok(a, enode, toks, branch_terms)
+            toks = _strip_prefix(_merge_lits(toks), accumulated=True)
+            if ("str", "node") in toks:
+                e_templates["leaf"] = toks
     for kind in ("branch", "leaf"):
         a, b = w_templates.get(kind), e_templates.get(kind)
         run.check(a is not None and a == b, "AGREE", f"template.{kind}", f"{w.path}:{L.line}", fqw,
@@ -308,26 +384,36 @@ def _imputer(run, prog, ts, ti):
     fq = "TreeImputer.impute"
     from .imputerlib import impute_params
     subset, x, n = impute_params(prog, ti)
-    # samplers get the explained instance itself
+    # samplers (the imputer's own helper methods called from impute) get the explained instance itself:
+    # an argument that is built from x_i must be x_i
+    samplers = []
     for ev, ctx in walk(s.events, structural=True):
-        if isinstance(ev, ir.Inlined) and ev.qual in ("TreeImputer._sample_from_storages", "TreeImputer._sample") and not ctx.inl:
-            xi = ev.params.get("x_i")
-            run.check(xi == x, "IMPUTE", f"sampler-input.{ev.qual.split('.')[1]}", f"{s.path}:{ev.line}", fq,
-                      f"{ev.qual} gets x_i = {ir.show_nl(xi)[:60] if xi else None}",
-                      f"the samplers must route and condition on the explained instance itself; {ev.qual} receives "
-                      f"{ir.show_nl(xi)[:100] if xi else None} (e.g. a partially imputed copy routes later features to the wrong leaf)",
-                      f"{ev.qual}(feature, x_i)")
-    st = prog.summarise(ti, "_sample_from_storages")
-    fq2 = "TreeImputer._sample_from_storages"
+        if isinstance(ev, ir.Inlined) and ev.cls is not None and ev.fn.name in ti.methods and not ctx.inl:
+            samplers.append(ev)
+            derived = [(k, v) for k, v in ev.params.items() if x in ir.subterms(v)]
+            for k, v in derived:
+                run.check(v == x, "IMPUTE", f"sampler-input.{ev.fn.name}", f"{s.path}:{ev.line}", fq,
+                          f"{ev.qual} gets {k} = {ir.show_nl(v)[:60]}",
+                          f"the samplers must route and condition on the explained instance itself; {ev.qual} receives "
+                          f"{ir.show_nl(v)[:100]} (e.g. a partially imputed copy routes later features to the wrong leaf)",
+                          f"{ev.qual}({k}=x_i)")
+            run.need(derived or not ev.params, f"{ev.qual} is not given the explained instance")
+    # the storage-mode sampler is the helper that asks the storage's id writer for the leaf of the instance
+    smode = [ev for ev in samplers
+             if any(isinstance(c, ir.Call) and c.method == WRITER for c, _ in walk(ev.body))]
+    run.need(len({ev.fn.name for ev in smode}) == 1, "TreeImputer.impute has no (single) storage-mode sampler using the id writer")
+    sname = smode[0].fn.name
+    st = prog.summarise(ti, sname)
+    fq2 = f"TreeImputer.{sname}"
     run.analysed_fn(fq2)
-    _, sfn = prog.find_method(ti, "_sample_from_storages")
-    names = [a.arg for a in sfn.args.args][1:]
-    feat, xi = ("param", names[0]), ("param", names[1])
+    _, sfn = prog.find_method(ti, sname)
     writer = [ev for ev, _ in walk(st.events) if isinstance(ev, ir.Call) and ev.method == WRITER]
-    ok = len(writer) == 1 and len(writer[0].args) == 2 and writer[0].args[1] == xi
+    xi = writer[0].args[1] if len(writer) == 1 and len(writer[0].args) == 2 else None
+    ok = xi is not None and xi[0] == "param" and smode[0].params.get(xi[1]) == x
     run.check(ok, "AGREE", "imputer-id", f"{st.path}:{st.fn.lineno}", fq2, "leaf id of the instance",
               "TreeImputer must compute the leaf id with the storage's own id writer on the explained instance",
               "leaf_id = storage.get_path_through_tree(root, x_i)")
+    own = set(ti.methods)
     tries = [ev for ev, _ in walk(st.events, structural=True) if isinstance(ev, ir.Try)]
     good = False
     why = "no try/except KeyError around the reservoir lookup"
@@ -335,14 +421,20 @@ def _imputer(run, prog, ts, ti):
         t = tries[0]
         draws = [ev for ev, _ in walk(t.body) if isinstance(ev, ir.Draw)]
         gd = [ev for ev, _ in walk(t.body) if isinstance(ev, ir.Call) and ev.method == "get_data"]
-        fb = [ev for h in t.handlers for ev, _ in walk(h.body, structural=True) if isinstance(ev, ir.Inlined) and ev.qual == "TreeImputer._sample"]
-        body_fb = [ev for ev, _ in walk(t.body, structural=True) if isinstance(ev, ir.Inlined) and ev.qual == "TreeImputer._sample"]
+        fb = [ev for h in t.handlers for ev, c in walk(h.body, structural=True) if isinstance(ev, ir.Inlined) and
+              ev.cls is not None and ev.fn.name in own and not c.inl]
+        fb_names = {ev.fn.name for ev in fb}
+        body_fb = [ev for ev, _ in walk(t.body, structural=True) if isinstance(ev, ir.Inlined) and ev.cls is not None and
+                   ev.fn.name in fb_names]
         if len(gd) == 1 and len(draws) == 1:
             rows = ("tget", gd[0].res, 0)
-            res_ok = gd[0].recv == ("sub", ("sub", ("attr", ("field0", "storage_object"), "data_reservoirs"), feat), writer[0].res)
+            rv = gd[0].recv
+            res_ok = rv[0] == "sub" and rv[2] == writer[0].res and rv[1][0] == "sub" and rv[1][2][0] == "param" and \
+                rv[1][1] == ("attr", ("field0", "storage_object"), "data_reservoirs") and \
+                smode[0].params.get(rv[1][2][1], ("?",))[0] == "elem"
             verdict, info = exact_range(draws[0].res, ("fn", "len", (rows,)))
             keyerr = len(t.handlers) == 1 and t.handlers[0].exc == ("KeyError",)
-            good = res_ok and verdict is True and keyerr and len(fb) == 1 and not body_fb
+            good = res_ok and verdict is True and keyerr and len(fb) >= 1 and len(fb_names) == 1 and not body_fb
             why = ("the reservoir is not the one of the routed leaf" if not res_ok else
                    f"row index: {info}" if verdict is not True else
                    "the model fallback is not confined to the KeyError handler")
